@@ -46,7 +46,12 @@ func (api *PcApi) HandleLogsStream(c *gin.Context) {
 						Message:     message,
 						ProcessName: procName,
 					}
-					logChan <- msg
+					select {
+					case logChan <- msg:
+					case <-done:
+						// the client went away: nobody reads the queue any more
+						return
+					}
 				}
 				if !follow {
 					chanCloseMtx.Lock()
@@ -65,7 +70,12 @@ func (api *PcApi) HandleLogsStream(c *gin.Context) {
 				if isChannelClosed {
 					return 0, nil
 				}
-				logChan <- msg
+				select {
+				case logChan <- msg:
+				case <-done:
+					// the client went away: do not hold up the process that writes the log
+					return 0, nil
+				}
 				return len(message), nil
 			},
 			endOffset)
@@ -105,8 +115,9 @@ func (api *PcApi) handleLog(ws *websocket.Conn, procName string, connector *pclo
 				return
 			}
 		case <-done:
+			// the queue is not closed here: the log buffer may be in the middle of
+			// handing a line to it (send on a closed channel)
 			log.Warn().Msg("Socket closed remotely")
-			close(logChan)
 			return
 		}
 
